@@ -14,7 +14,7 @@ Added after the seeding rounds (DESIGN.md 6.6-6.8):
  DROPOUT-EXIT / RECOMPUTED  the zero side of every zero test on a sample norm raises or returns; AQUA.alpha never feeds back into itself.
 """
 import ast
-LINT_EXTRA_FILES = ("ahrs/common/orientation.py",)      # acc2q / am2q / ecompass helpers the filters start from
+LINT_EXTRA_FILES = ("ahrs/common/orientation.py", "ahrs/utils/core.py")      # acc2q / am2q / ecompass helpers the filters start from; the shared input validators
 from sa.facts import Facts
 from sa.model import stmt_text
 
